@@ -179,7 +179,7 @@ class Scenario:
             cls = getattr(bsus, d.get("type", "SuspendBoolHigh"))
             pre = [build_msg(m, devs, futs) for m in d.get("pre", [])] or None
             post = [build_msg(m, devs, futs) for m in d.get("post", [])] or None
-            suspenders[n] = cls(sigs[d["signal"]], *d.get("args", []), pre_plan=pre, post_plan=post)
+            suspenders[n] = cls(sigs[d["signal"]], *d.get("args", []), pre_plan=pre, post_plan=post, **d.get("kwargs", {}))
         SUSPENDERS.clear()
         SUSPENDERS.update(suspenders)
         rec_mod.SUS_NAMES.clear()
@@ -253,6 +253,8 @@ class Scenario:
         def pick(p, kind):
             rec.sched.append((p, kind, len(rec.events)))
             lst = inj.pop("startup", None) if kind == "startup" else inj.pop(p, None)
+            if not lst and kind == "idle":
+                lst = inj.pop("idle", None)        # "just before (virtual) time advances to the next timer"
             if not lst and kind == "blocked":
                 lst = inj.pop("blocked", None)     # requests scheduled for "whenever the engine waits for something external"
             if not lst:
